@@ -167,7 +167,7 @@ def _ops_map_diff(m, x, limit=6):
 
 def run_ops(ctx):
     """database level (L3): the core mutations as storage programs (StoredDbOps.v: so_open ;; so_q_insert_node / so_q_insert_values /
-    so_q_insert_edge, run by cp_run on the extracted model of storage.rs opened on the IMAGE of a real file) vs the raw records of
+    so_q_insert_edge / so_q_remove, run by cp_run on the extracted model of storage.rs opened on the IMAGE of a real file) vs the raw records of
     the real file after the same query of the public API"""
     exe, dlog = vlib.build_driver()
     if exe is None:
@@ -289,21 +289,24 @@ def run(ctx):
         d = ops["dist"]
         rule = ("stored-database operations (L3, the core mutations as storage programs): %d generated histories of mutating queries and transactions through the public API on a DbFile (removals, so that the "
                 "graph's free list is non-empty in part of the cases; optimize_storage / shrink_to_fit / drop+reopen at random points; no index on any key the case uses), the database dropped; then 1-3 chained "
-                "cases per file (%d cases: %d insert-node, %d insert-values, %d insert-edge): PRE = the bytes of the closed file; the file is reopened as a real database (DbFile::new, handles rebuilt by "
-                "from_storage), ONE query of the public API runs — QueryBuilder::insert().nodes().values([l]) / insert().values([l]).ids(existing id) / insert().edges().from(f).to(t) (1 in 10 with an endpoint that is not a node: the query must fail where the program answers None, and no record may change), l = 0-4 pairs with inline "
+                "cases per file (%d cases: %d insert-node, %d insert-values, %d insert-edge, %d remove): PRE = the bytes of the closed file; the file is reopened as a real database (DbFile::new, handles rebuilt by "
+                "from_storage), ONE query of the public API runs — QueryBuilder::insert().nodes().values([l]) / insert().values([l]).ids(existing id) / insert().edges().from(f).to(t) (1 in 10 with an endpoint that is not a node: the query must fail where the program answers None, and no record may change) / remove().ids(id) where id is an existing EDGE (half of the histories end with a fan of edges, so the edge is often not the head of its source's out-list / its target's in-list and the code walks to the predecessor) or an existing NODE without outgoing / incoming edges and without alias (the restrictions of so_q_remove: no cascade, no alias table access), with or without properties (out-of-line records must be freed), l = 0-4 pairs with inline "
                 "and out-of-line keys and values — and the database is dropped; POST = every live record read RAW through the storage layer only (VStorage<FileStorage>, %d records in all). The extracted "
                 "model of storage.rs OPENS THE FILE IMAGE (Storage.with_data on the %d file bytes, as FileStorage::new does), its live records must equal the raw records of the real file before the "
-                "operation (class stored-ops-open-mismatch), then cp_run (st_step ops_file) executes `h <~ so_open 1 ;; so_q_insert_node h l | so_q_insert_values h id l | so_q_insert_edge h f t` of "
+                "operation (class stored-ops-open-mismatch), then cp_run (st_step ops_file) executes `h <~ so_open 1 ;; so_q_insert_node h l | so_q_insert_values h id l | so_q_insert_edge h f t | so_q_remove h id` of "
                 "StoredDbOps.v and the line `every live record index:bytes before, returned id, every live record index:bytes after` must be IDENTICAL to the implementation's (EXACT comparison: record "
                 "indexes in allocation order, spare-capacity bytes of every vector record, out-of-line value records, the returned node / edge id; nothing is normalised; class stored-ops-mismatch); "
-                "non-trivial = a case that pops the free list, writes an out-of-line value, replaces an existing pair or inserts an edge. "
-                % (ops["histories"], ops["cases"], d.get("kind:insert_node", 0), d.get("kind:insert_values", 0), d.get("kind:insert_edge", 0), ops["records"], ops["file_bytes"])) + rule
+                "non-trivial = a case that pops the free list, writes an out-of-line value, replaces an existing pair, inserts an edge or removes an element. "
+                % (ops["histories"], ops["cases"], d.get("kind:insert_node", 0), d.get("kind:insert_values", 0), d.get("kind:insert_edge", 0), d.get("kind:remove", 0), ops["records"], ops["file_bytes"])) + rule
         notes.append("stored-database operations: %d cases (insert-node %d: %d new slot / %d free-list pop; insert-edge %d: %d new slot / %d free-list pop / %d rejected because an endpoint is not a node; insert-values %d: %d pairs replaced, %d pairs appended, "
-                     "%d on an element without properties; %d out-of-line keys/values written), %d lines identical to the model's byte for byte, %d disagreements, %d oracle failures"
+                     "%d on an element without properties; remove %d: %d edges (%d not the head of the source's out-list, %d not the head of the target's in-list) / %d nodes without edges and alias, %d elements with properties, %d out-of-line keys/values freed; %d out-of-line keys/values written), %d lines identical to the model's byte for byte, %d disagreements, %d oracle failures"
                      % (ops["cases"], d.get("kind:insert_node", 0), d.get("insert_node:new-slot(grow)", 0), d.get("insert_node:free-list-pop", 0),
                         d.get("kind:insert_edge", 0), d.get("insert_edge:new-slot(grow)", 0), d.get("insert_edge:free-list-pop", 0), d.get("insert_edge:endpoint-not-a-node", 0),
                         d.get("kind:insert_values", 0), d.get("insert_values:pairs-replaced(replace branch)", 0), d.get("insert_values:pairs-appended(push branch)", 0),
-                        d.get("insert_values:element-without-properties", 0), d.get("out-of-line keys/values written (estimated)", 0),
+                        d.get("insert_values:element-without-properties", 0),
+                        d.get("kind:remove", 0), d.get("remove:target=edge", 0), d.get("remove:edge:NOT-head-of-the-source's-out-list(walk)", 0), d.get("remove:edge:NOT-head-of-the-target's-in-list(walk)", 0),
+                        d.get("remove:target=node-without-edges-and-alias", 0), d.get("remove:element-with-properties", 0), d.get("remove:out-of-line keys/values freed (estimated)", 0),
+                        d.get("out-of-line keys/values written (estimated)", 0),
                         ops["cases"] - ops["mismatches"], ops["mismatches"],
                         len([f for f in ops["failures"] if not f["cls"].startswith("stored-ops-")])))
     return dict(
